@@ -395,6 +395,30 @@ def add_gitignores(rng, root):
     return out
 
 
+def add_top_gitignore(rng, root):
+    """a .gitignore in the PROJECT directory, i.e. strictly above the scan root t: its lines apply to the entries of the
+    scanned subtree (the walk reads the ignore files of the root's ancestors); returned as (None, lines)"""
+    below = [n for n in root.walk() if n is not root]
+    if not below:
+        return None
+    lines = []
+    fl = [n for n in below if n.kind == "f" and "." in n.name[1:] and n.name != ".gitignore"]
+    dl = [n for n in below if n.kind == "d"]
+    for _ in range(rng.randint(1, 3)):
+        r = rng.random()
+        if r < 0.35:
+            nm = rng.choice(fl).name if fl and rng.random() < 0.8 else "v.ign"
+            lines.append("*" + nm[nm.rindex("."):])
+        elif r < 0.55:
+            lines.append(rng.choice(below).name)
+        elif r < 0.8:
+            lines.append((rng.choice(dl).name if dl and rng.random() < 0.8 else "build") + "/")
+        else:
+            lines.append("/" + rng.choice(below).path)
+    lines = [ln for ln in lines if ln.strip("/") != ROOT_NAME]
+    return (None, lines) if lines else None
+
+
 def apply_gitignore(root, gis, enabled):
     """the generator's own reading of the few ignore forms it writes"""
     for n in root.walk():
@@ -402,10 +426,10 @@ def apply_gitignore(root, gis, enabled):
     if not enabled:
         return
     for d, lines in gis:
-        for n in d.walk():
-            if n is d:
+        for n in (d or root).walk():
+            if n is (d or root):
                 continue
-            rel = n.path[len(d.path) + 1:]
+            rel = n.path if d is None else n.path[len(d.path) + 1:]
             for ln in lines:
                 if ln.startswith("/"):
                     hit = rel == ln[1:]
@@ -421,7 +445,10 @@ def apply_gitignore(root, gis, enabled):
 
 def materialise(sb, root, gis, toml_text):
     sb.write(".sloc-guard.toml", toml_text)
-    gl = {id(d): lines for d, lines in gis}
+    for d, lines in gis:
+        if d is None:
+            sb.write(".gitignore", "\n".join(lines) + "\n")
+    gl = {id(d): lines for d, lines in gis if d is not None}
     first_file = [None]
 
     def go(n):
@@ -663,6 +690,11 @@ def scope_pool(rng, root):
     for d in rng.sample(dirs, min(len(dirs), 3)):
         out += ["./" + d.path, "./" + d.path + "/**"]
     out += ["./t", "./t/**", "./**"]
+    # a scope written with a trailing separator: the normalised directory path never ends in one, so it matches nothing,
+    # at EVERY site alike (limits / explain / siblings / placement)
+    for d in rng.sample(dirs, min(len(dirs), 3)):
+        out += [d.path + "/", d.path + "/", "**/" + d.name + "/"]
+    out += ["t/", "*/"]
     return out
 
 
@@ -753,6 +785,23 @@ def gen_excludes(rng, cfg, root):
             if rng.random() < 0.5:
                 cfg.count_exclude = [p for p in cfg.count_exclude if "/" not in glob(p)][:rng.randint(0, 2)]
             cfg.count_exclude.insert(rng.randint(0, len(cfg.count_exclude)), po)
+        if rng.random() < 0.35:
+            # a count-excluded directory WITHOUT entries of its own (empty): it is still a walked directory with a record
+            # of its own (0 files, 0 dirs, its depth) and its depth is still checked; only its parent does not count it
+            dl = [n for n in names if n.kind == "d"]
+            empt = [n for n in dl if not n.children]
+            if not empt and dl:
+                host = max(dl, key=lambda n: n.path.count("/"))
+                if len(host.children) < 12:
+                    e_ = Node(next(x for x in ["emptyd", "e0"] if x not in {c_.name for c_ in host.children}), "d")
+                    e_.parent = host
+                    host.children.append(e_)
+                    assign_paths(root)
+                    empt = [e_]
+            if empt:
+                e_ = max(empt, key=lambda n: n.path.count("/")) if rng.random() < 0.6 else rng.choice(empt)
+                cfg.count_exclude.append(rng.choice([("lit", e_.name), ("any", e_.name), ("lit", e_.path), ("under", e_.parent.path), ("mid", e_.name)])
+                                         if e_.parent is not root or rng.random() < 0.5 else ("lit", e_.name))
     if rng.random() < 0.45:
         cfg.scanner_exclude = [some_pattern() for _ in range(rng.randint(0, 3))]
         if rng.random() < 0.15:
@@ -1049,6 +1098,10 @@ def prepare_structure(ctx):
 def new_case(rng, flavour, backend=None, bad=False):
     root = gen_tree(rng, budget=rng.choice([12, 25, 40, 70]))
     gis = add_gitignores(rng, root) if rng.random() < 0.6 else []
+    if rng.random() < 0.3:
+        top = add_top_gitignore(rng, root)
+        if top:
+            gis.append(top)
     cfg = gen_bad_cfg(rng, root) if bad else gen_cfg(rng, root, flavour)
     if not bad:
         # keep the valid stream valid for config/validation.rs (warn_at < max at the same level)
@@ -1117,7 +1170,7 @@ def case_key(c):
     for n in c["root"].walk():
         h.update(("%s|%s|%s\n" % (n.path, n.kind, n.otype)).encode())
     for d, lines in c["gis"]:
-        h.update((d.path + "|" + ";".join(lines)).encode())
+        h.update(((d.path if d is not None else "") + "|" + ";".join(lines)).encode())
     return h.hexdigest()
 
 
@@ -1235,7 +1288,7 @@ def describe(c):
     """everything needed to rebuild the case (replay files, samples)"""
     return {"toml": c["cfg"].toml(), "cli_exclude": [glob(p_) for p_ in c["cfg"].cli_exclude], "backend": c["backend"], "flavour": c["flavour"],
             "nodes": [[n.path, n.kind, n.otype] for n in c["root"].walk()],
-            "gitignores": [[d.path, lines] for d, lines in c["gis"]], "perm_seed": c["perm_seed"], "spell": c.get("spell", ""),
+            "gitignores": [[d.path if d is not None else "", lines] for d, lines in c["gis"]], "perm_seed": c["perm_seed"], "spell": c.get("spell", ""),
             "roots": [list(r_) for r_ in c["roots"]] if c.get("roots") else None}
 
 
@@ -1253,7 +1306,7 @@ def rebuild(desc, cfg):
         else:
             root = n
     assign_paths(root)
-    gis = [(by[p], lines) for p, lines in desc["gitignores"]]
+    gis = [(by[p] if p else None, lines) for p, lines in desc["gitignores"]]
     return {"root": root, "gis": gis, "cfg": cfg, "backend": desc["backend"], "flavour": desc["flavour"], "bad": desc["flavour"] == "bad",
             "perm_seed": desc["perm_seed"], "spell": desc.get("spell", ""),
             "roots": [tuple(r_) for r_ in desc["roots"]] if desc.get("roots") else None}
@@ -1336,6 +1389,8 @@ def evaluate(c):
         r["tags"].add("root-spelled-dot-slash")
     if any(r_["scope"].startswith("./") for r_ in c["cfg"].rules):
         r["tags"].add("scope-spelled-dot-slash")
+    if any(r_["scope"].endswith("/") for r_ in c["cfg"].rules):
+        r["tags"].add("scope-with-trailing-separator")
     # ---- correspondence
     for k in ("stats", "placement", "limits", "siblings") + (("files",) if impl["scan_enabled"] else ()):
         if d[k] != m[k]:
@@ -1486,6 +1541,8 @@ def evaluate(c):
     tg.add("backend:" + c["backend"])
     if any(n.ign for n in c["root"].walk()):
         tg.add("ignored-entries")
+    if any(d_ is None for d_, _l in c["gis"]) and c["backend"] == "ignore":
+        tg.add("gitignore-above-scan-root")
     o = impl["oracle"]
     if c["cfg"].cli_exclude:
         tg.add("cli-exclude")
@@ -1501,6 +1558,8 @@ def evaluate(c):
         tg.add("non-regular")
     if any(n.kind == "d" and not n.children for n in c["root"].walk()):
         tg.add("empty-dir")
+    if any(n.kind == "d" and not n.children and not n.ign and (o[sp + n.path]["ce_name"] or o[sp + n.path]["ce_path"]) and n.path in d["stats"] for n in c["root"].walk()):
+        tg.add("count-excluded-empty-dir")
     if any(n.name.startswith(".") for n in c["root"].walk()):
         tg.add("hidden")
     if any(sum(v["lim"]) >= 2 for v in o.values() if v["lim"]):
@@ -1826,6 +1885,58 @@ def run_rootname_leg(exes, cases, k):
     return runs, fails
 
 
+# --------------------------------------------------------------------------- a file given as scan root (fixes/D130)
+def run_fileroot_leg(exes, cases, k):
+    """a FILE given as scan root is not a walked directory: its parent has no count, so the run reports no file_count /
+    dir_count / max_depth result at all (before fixes/D130 the parent got a DirStats record holding only the files that
+    were given, once per spelling of the parent) -> (runs, failures).  Cases with tight global limits are preferred;
+    the fixed witness of the defect is always run"""
+    _, sgcli, _ = exes
+    fails, runs = [], 0
+    with Sandbox(prefix="sgv-structure-fr-") as sb:
+        sb.write(".sloc-guard.toml", 'version = "2"\n[structure]\nmax_files = 3\nwarn_files_at = 1\n')
+        for f_ in "abc":
+            sb.write("src/%s.rs" % f_, "fn x() {}\n")
+        for args in (["src/a.rs"], ["src/a.rs", "./src/b.rs"], ["./src/c.rs"]):
+            rc, out, err = sb.run(sgcli, ["check"] + args + ["--format", "json", "--no-sloc-cache", "--color", "never"])
+            runs += 1
+            try:
+                rows = [v for v in canon_cli_results(json.loads(out)) if v[1] in LIMIT_KINDS]
+            except Exception:
+                rows = [("ERR", rc, (out + err)[-300:])]
+            if rows:
+                fails.append((None, {"witness": "[structure] max_files = 3, warn_files_at = 1; src/{a,b,c}.rs; check " + " ".join(args), "rows": rows[:4]}))
+    def weight(c):
+        g = c["cfg"].g
+        return 0 if g.get("max_files") in (0, 1) or g.get("warn_files_at") in (0, 1) else 1
+    picked = sorted([c for c in cases if not c["bad"] and c.get("dimpl") and len(c["dimpl"]["files"]) >= 1 and c["flavour"] != "corpus"], key=weight)[:k]
+
+    def one(c):
+        with Sandbox(prefix="sgv-structure-fr-") as sb:
+            materialise(sb, c["root"], c["gis"], c["cfg"].toml())
+            files = sorted(c["dimpl"]["files"], key=lambda p_: (-p_.count("/"), p_))
+            f0 = files[c["perm_seed"] % len(files)]
+            same = [x for x in files if x != f0 and x.rsplit("/", 1)[0] == f0.rsplit("/", 1)[0]]
+            reqs = [[c["spell"] + f0]] + ([[f0, "./" + same[0]]] if same else [])
+            bad = []
+            for req in reqs:
+                args = ["check"] + req + ["--format", "json", "--no-sloc-cache", "--color", "never"] + ([] if c["backend"] == "ignore" else ["--no-gitignore"])
+                rc, out, err = sb.run(sgcli, args, env={"RAYON_NUM_THREADS": "2"})
+                try:
+                    rows = [v for v in canon_cli_results(json.loads(out)) if v[1] in LIMIT_KINDS]
+                except Exception:
+                    rows = [("ERR", rc, (out + err)[-300:])]
+                if rows:
+                    bad.append({"roots": req, "rows": rows[:4]})
+            return c, len(reqs), bad
+    with _cf.ThreadPoolExecutor(max_workers=8) as ex:
+        for c, n_, bad in ex.map(one, picked):
+            runs += n_
+            if bad:
+                fails.append((c, {"file-root": bad}))
+    return runs, fails
+
+
 # --------------------------------------------------------------------------- known finding K07_file_root_sibling (D52)
 def probe_file_root_sibling(exes):
     """the witness of the finding: True = still reproduces, False = gone, None = the probe itself failed"""
@@ -2040,6 +2151,12 @@ def run_structure(ctx, prop, prop_files, flavours, n_cases, n_cli_every, n_maps,
             ctx.notes.append("known finding K07_file_root_sibling: the witness no longer reproduces (a file given as scan root finds its companion); remove the entry")
         else:
             ctx.notes.append({"K07_file_root_sibling probe failed": str(detail)[:300]})
+    # ---- a file given as scan root has no directory statistics (C06, fixes/D130)
+    fileroot_fails = []
+    if prop == "C06":
+        fr_runs, fileroot_fails = run_fileroot_leg(exes, cases, 60 if ctx.tier == "quick" else 300)
+        cli_runs += fr_runs
+        hist["file-root-runs"] = fr_runs
     # ---- Path::extension / file_stem mirror against std, on every name that occurred (C07)
     pf_bad = []
     if prop == "C07":
@@ -2091,7 +2208,11 @@ def run_structure(ctx, prop, prop_files, flavours, n_cases, n_cli_every, n_maps,
         ctx.violation({"kind": "property-oracle", "failed": {"root-name": bad}, "case": case_to_json(c),
                        "note": "the tree t as a project of its own (configuration written to t/.sloc-guard.toml), run from inside with no path / . / the absolute path",
                        "replay_cmd": "python3 tools/vp.py check %s --replay <this file>" % prop})
-    if not prop_bad and not map_bad_prop and not roots_prop and not rootname_fails:
+    for c, bad in fileroot_fails[:3]:
+        ctx.violation({"kind": "property-oracle", "failed": {"file-root-dirstats": bad}, **({"case": case_to_json(c)} if c is not None else {}),
+                       "note": "a file given as scan root: its parent directory was not walked and has no count; no file_count / dir_count / max_depth result may be reported",
+                       "replay_cmd": "python3 tools/vp.py check %s --replay <this file>" % prop})
+    if not prop_bad and not map_bad_prop and not roots_prop and not rootname_fails and not fileroot_fails:
         if roots_corr and not (corr_bad or map_bad_corr):
             ctx.violation({"kind": "correspondence-broken", "relation": "resolve_scan_paths of /repo == extracted Structure.Roots.kept on the marked normalised keys",
                            "first_mismatch": roots_corr[0], "mismatches": len(roots_corr)}, no_input=True)
@@ -2130,10 +2251,18 @@ def replay_structure(ctx, path):
         print("impl :", out[0])
         print("own  :", [j["roots"][i] for i in py_kept([py_root_key(r_, os.getcwd()) for r_ in j["roots"]])])
         return 0
+    if "file-root-dirstats" in (j.get("failed") or {}) and "case" not in j:
+        print(run_fileroot_leg(exes, [], 0))
+        return 0
     cj = j.get("case") or j["first_mismatch"]["case"]
     c = case_from_json(cj)
     if "root-name" in (j.get("failed") or {}):
         print(run_rootname_leg(exes, [c], 1))
+        return 0
+    if "file-root-dirstats" in (j.get("failed") or {}):
+        run_batch(exes, [c])
+        evaluate(c)
+        print(run_fileroot_leg(exes, [c], 1))
         return 0
     run_batch(exes, [c], cli_idx=[0])
     ev = evaluate(c)
